@@ -563,10 +563,11 @@ VERIF_TARGET(c60_banman, init_c60_ban, 8, 260,
         for (auto& d : discouraged) VCHECK(bm->IsDiscouraged(make_ip(d)), "c60.discouraged", when, "discouraged address no longer reported:", fmt_ip(d));
     };
     while (!s.exhausted() && nops < 60) {
-        unsigned op = s.range<unsigned>(0, 15);
+        unsigned op = s.range<unsigned>(0, 31);
+        if (op >= 30 || (op == 29 && n_restart >= 2)) op = 0;
         nops++;
         st.mix(op);
-        if (op < 5) { // ban
+        if (op < 12) { // ban
             bool single = s.chance(90);
             RefSubnet r = gen_subnet();
             if (single) { Bytes a = Pool::ip(s.range<unsigned>(0, 11)); r = RefSubnet{a.size() == 4 ? 4 : 6, a, int(a.size()) * 8}; }
@@ -587,7 +588,7 @@ VERIF_TARGET(c60_banman, init_c60_ban, 8, 260,
             st.cls(single ? "ban-address" : "ban-subnet");
             if (absolute) st.cls("ban-absolute-time");
             st.note("ban ", r.tag(), " until now", until - now >= 0 ? "+" : "", until - now);
-        } else if (op < 7) { // unban
+        } else if (op < 16) { // unban
             RefSubnet r = (!ref.empty() && s.chance(200)) ? ref[s.index(ref.size())].sn : gen_subnet();
             RefBan* e = ref_find(r);
             bool live = e && now <= e->until; // an entry not yet swept (now <= until) is certainly still listed
@@ -597,7 +598,7 @@ VERIF_TARGET(c60_banman, init_c60_ban, 8, 260,
             if (!e) VCHECK(!got, "c60.unban", "Unban of a never-banned subnet reported success", r.tag());
             if (e) { ref.erase(ref.begin() + (e - ref.data())); n_unban++; st.cls("unban-listed"); }
             st.note("unban ", r.tag(), " -> ", got);
-        } else if (op < 11) { // time
+        } else if (op < 24) { // time
             int64_t target = now;
             if (!untils.empty() && s.chance(180)) { target = untils[s.index(untils.size())] + s.pick<int64_t>({-1, 0, 1}); }
             else target = now + s.pick<int64_t>({1, 59, 3600, 86399, 86400, 86401});
@@ -607,7 +608,7 @@ VERIF_TARGET(c60_banman, init_c60_ban, 8, 260,
                 SetMockTime(now);
                 st.note("time -> +", now - 1700000000);
             }
-        } else if (op < 12) { // sweep through GetBanned: lists exactly the entries that have not expired (now <= until is still listed)
+        } else if (op < 26) { // sweep through GetBanned: lists exactly the entries that have not expired (now <= until is still listed)
             banmap_t m;
             bm->GetBanned(m);
             st.steps++;
@@ -621,13 +622,13 @@ VERIF_TARGET(c60_banman, init_c60_ban, 8, 260,
             ref.erase(std::remove_if(ref.begin(), ref.end(), [&](const RefBan& b) { return now > b.until; }), ref.end());
             st.cls("op-getbanned");
             st.note("getbanned ", m.size());
-        } else if (op < 13) { // discourage
+        } else if (op < 28) { // discourage
             Bytes a = Pool::ip(s.range<unsigned>(0, 11));
             bm->Discourage(make_ip(a));
             discouraged.push_back(a);
             st.cls("op-discourage");
             st.note("discourage ", fmt_ip(a));
-        } else if (op < 14) { // clear bans (discouragement is a separate mechanism and stays)
+        } else if (op < 29) { // clear bans (discouragement is a separate mechanism and stays)
             bm->ClearBanned();
             ref.clear();
             st.cls("op-clear");
